@@ -72,11 +72,11 @@ def close_all():
 
 
 def run_real(sql, dialect="ansi", metadata=None, config=None, env=None, silent_mode=False, cyto=False,
-             statements=False, hashseed=None, again=False):
+             statements=False, hashseed=None, again=False, read_after_scope=False):
     """run the unmodified library; returns the worker's dict (normalised anonymous subquery names)"""
     r = worker(hashseed).call({"kind": "run", "sql": sql, "dialect": dialect, "metadata": metadata,
                                "config": config, "env": env, "silent_mode": silent_mode, "cyto": cyto,
-                               "statements": statements, "again": again})
+                               "statements": statements, "again": again, "read_after_scope": read_after_scope})
     if r.get("ok"):
         for k in ("sources", "targets", "intermediates"):
             r[k] = sorted(norm_anon(x) for x in r[k])
